@@ -4,7 +4,7 @@ import re
 
 import z3
 
-from pv import rx
+from pv import rx, smt
 from pv.core import Ob, DISCHARGED, REFUTED, UNDECIDED, VENV_PY, VERIF, REPO
 from pv.rx import lit, chars, not_chars, union, concat, ALL, ANYCHAR, EPS, NONE
 
@@ -183,6 +183,33 @@ def prefix_obligations(version='3.10'):
     obs.append(rx.ob_subset('re:prefix._regex:type-lookup-total', z3.Intersect(g2, z3.Concat(ANYCHAR, ALL)),
                             z3.Concat(chars(keys), ALL), f,
                             what='_types[value[0]] never raises KeyError: every non-empty value starts with a key'))
+    # an empty value comes from the '$' alternative only, and then the match ends the string: every other alternative
+    # rejects the empty word (RegLan); '$' also matches just before a final line feed, but an alternative that matches
+    # exactly that line feed is tried first (ordered alternation, read off the parse tree)
+    try:
+        alts = rx.alternatives(groups[1][2], t)
+        c = rx.sre_c
+        bad, at_end_idx, nl_idx = [], None, None
+        for ai, (items, r) in enumerate(alts):
+            items = list(items)
+            if len(items) == 1 and items[0][0] is c.AT and items[0][1] is c.AT_END:
+                at_end_idx = ai
+                continue
+            v_, _, _, _ = smt.check_sat([z3.InRe(z3.StringVal(''), r)], timeout_ms=5000, use_cvc5=False)
+            if v_ != 'unsat':
+                bad.append('alternative %d may match the empty string' % ai)
+            v2, _, _, _ = smt.check_sat([z3.Not(z3.InRe(z3.StringVal('\n'), r))], timeout_ms=5000, use_cvc5=False)
+            if v2 == 'unsat' and nl_idx is None:
+                nl_idx = ai
+        if at_end_idx is None:
+            bad.append('no $ alternative')
+        elif nl_idx is None or nl_idx > at_end_idx:
+            bad.append('no alternative matching a line feed precedes $')
+        obs.append(Ob('re:prefix._regex:empty-value-only-at-end', 'D', 'reglan:z3', DISCHARGED if not bad else REFUTED, 0,
+                      'value == "" only through $, and then the match ends at the end of the prefix' if not bad else '; '.join(bad),
+                      None if not bad else dict(reasons=bad), functions=f, replayed=False if bad else None))
+    except rx.Unsupported as e:
+        obs.append(Ob('re:prefix._regex:empty-value-only-at-end', 'D', 'reglan:structure', UNDECIDED, 0, 'binding error: %s' % e, functions=f))
     # totality of the re-lexer on everything the tokenizer puts into a prefix
     try:
         D, info = relexer_success_language(p._regex)
